@@ -3,10 +3,13 @@
    Models: Lang/Escape.v (escape = _escape_string_literal; clex_string = the g++ lexer of one
    ordinary string literal), Lang/Sections.v (the emitter's stitching order, declared-before-use).
    Lang/Scope.v (C++ block scoping over the IR of the statement translator Lang/Transl.v).
+   Lang/Headers.v (library includes vs. instantiated library classes), Lang/FnSelect.v (which
+   specialisations of the user functions are emitted, and their C++ parameter lists).
    The C++ type checker is not modelled: it is g++ itself, run by harness/props/c06.py. *)
 From Coq Require Import ZArith List Bool Sorting.Sorted.
 From RV Require Import Base.Wire Base.Text Lang.Escape Lang.Sections Proofs.EscapeP Proofs.SectionsP.
 From RV Require Import Lang.StmtAst Lang.Transl Lang.Scope Proofs.ScopeP.
+From RV Require Lang.Headers Proofs.HeadersP Lang.FnSelect Proofs.FnSelectP.
 Import ListNotations.
 Open Scope Z_scope.
 
@@ -186,3 +189,139 @@ Example C06_scope_nonvacuous :
             length (c_globals c) = 3%nat /\ length (c_loop c) = 8%nat.
 Proof. exact scope_demo_ok. Qed.
 Print Assumptions C06_scope_nonvacuous.
+
+(* ---------------------------------------------------------------- library headers *)
+
+(* "the headers for every library class it instantiates are included": for EVERY list of top-level
+   device declarations (any number of Servos, parallel and I2C LCDs, in any order and mixture, names
+   re-used or not), each library object the emitter creates has all headers of its class among the
+   includes (model of _ensure_servo_globals / _ensure_lcd_globals and the header stitching) *)
+Theorem C06_headers_complete : forall (ds : list Headers.decl) (n : Z) (k : Headers.lib) (h : Headers.hdr),
+  In (n, k) (Headers.objects ds) -> In h (Headers.needs k) -> In h (Headers.includes ds).
+Proof. exact HeadersP.headers_complete. Qed.
+Print Assumptions C06_headers_complete.
+
+(* the executable form used by the harness on the real text means exactly that, and holds on the model *)
+Theorem C06_headers_ok : forall ds : list Headers.decl,
+  Headers.headers_ok (Headers.includes ds) (Headers.objects ds) = true.
+Proof. exact HeadersP.headers_ok_holds. Qed.
+Print Assumptions C06_headers_ok.
+
+Theorem C06_headers_ok_meaning : forall (incs : list Headers.hdr) (objs : list (Z * Headers.lib)),
+  Headers.headers_ok incs objs = true <->
+  (forall n k h, In (n, k) objs -> In h (Headers.needs k) -> In h incs).
+Proof. exact HeadersP.headers_ok_meaning. Qed.
+Print Assumptions C06_headers_ok_meaning.
+
+(* nothing superfluous and nothing twice: a header other than Arduino.h is included only for an
+   instantiated class; Arduino.h comes first *)
+Theorem C06_headers_exact : forall (ds : list Headers.decl) (h : Headers.hdr),
+  In h (Headers.includes ds) ->
+  h = Headers.HArduino \/ exists n k, In (n, k) (Headers.objects ds) /\ In h (Headers.needs k).
+Proof. exact HeadersP.headers_exact. Qed.
+Print Assumptions C06_headers_exact.
+
+Theorem C06_includes_nodup : forall ds : list Headers.decl,
+  NoDup (Headers.includes ds) /\ exists r, Headers.includes ds = Headers.HArduino :: r.
+Proof. exact HeadersP.includes_nodup. Qed.
+Print Assumptions C06_includes_nodup.
+
+(* every declared library device does get its object (for an LCD name declared twice: of the class of
+   the first declaration) - so the theorems above are not about an empty object list *)
+Theorem C06_declared_instantiated : forall (ds : list Headers.decl) (n : Z) (k : Headers.lib),
+  In (n, Some k) ds ->
+  exists k', In (n, k') (Headers.objects ds) /\ (k = Headers.LServo <-> k' = Headers.LServo).
+Proof. exact HeadersP.declared_instantiated. Qed.
+Print Assumptions C06_declared_instantiated.
+
+(* the independence of the three include tests matters: with the I2C include as an elif of the parallel
+   one, the smallest sketch with both LCD kinds lacks Wire.h / LiquidCrystal_I2C.h *)
+Example C06_headers_elif_breaks :
+  Headers.headers_ok (Headers.includes_elif (Headers.hrun Headers.both_lcds)) (Headers.objects Headers.both_lcds) = false /\
+  Headers.headers_ok (Headers.includes Headers.both_lcds) (Headers.objects Headers.both_lcds) = true /\
+  Headers.includes Headers.both_lcds =
+    [Headers.HArduino; Headers.HLiquidCrystal; Headers.HWire; Headers.HLiquidCrystalI2C].
+Proof. exact HeadersP.elif_breaks. Qed.
+Print Assumptions C06_headers_elif_breaks.
+
+Example C06_headers_nonvacuous :
+  Headers.includes Headers.all_libs =
+    [Headers.HArduino; Headers.HServo; Headers.HLiquidCrystal; Headers.HWire; Headers.HLiquidCrystalI2C] /\
+  Headers.objects Headers.all_libs = [(3, Headers.LLcdI2C); (1, Headers.LLcdPar); (5, Headers.LServo)].
+Proof. exact HeadersP.all_libs_demo. Qed.
+Print Assumptions C06_headers_nonvacuous.
+
+(* ---------------------------------------------------------------- user functions: each variant once *)
+
+(* the selection loop of parse() never selects a (function, signature) pair twice - for EVERY state of
+   the specialisation tables (any variants, any recorded call signatures, any alias table, any
+   primary signature), as long as the names are the keys of a dict *)
+Theorem C06_fn_select_nodup : forall fs : list (Z * FnSelect.fentry),
+  NoDup (map fst fs) -> NoDup (FnSelect.select fs).
+Proof. exact FnSelectP.select_nodup. Qed.
+Print Assumptions C06_fn_select_nodup.
+
+(* only existing variants are selected ... *)
+Theorem C06_fn_select_sound : forall (fs : list (Z * FnSelect.fentry)) (n : Z) (s : FnSelect.sig),
+  In (n, s) (FnSelect.select fs) -> exists fe, In (n, fe) fs /\ In s (FnSelect.fe_variants fe).
+Proof. exact FnSelectP.select_sound. Qed.
+Print Assumptions C06_fn_select_sound.
+
+(* ... and every variant that some recorded call resolves to is selected (declared before use needs it) *)
+Theorem C06_fn_select_covers_calls : forall (fs : list (Z * FnSelect.fentry)) (n : Z) (fe : FnSelect.fentry) (s : FnSelect.sig),
+  In (n, fe) fs -> In s (FnSelect.fe_used fe) ->
+  In (FnSelect.resolve (FnSelect.fe_aliases fe) s) (FnSelect.fe_variants fe) ->
+  In (n, FnSelect.resolve (FnSelect.fe_aliases fe) s) (FnSelect.select fs).
+Proof. exact FnSelectP.select_covers. Qed.
+Print Assumptions C06_fn_select_covers_calls.
+
+(* a function that is never called is emitted exactly once (its primary variant when that exists) *)
+Theorem C06_fn_uncalled_once : forall fe : FnSelect.fentry,
+  FnSelect.fe_used fe = [] -> FnSelect.fe_variants fe <> [] ->
+  exists s, FnSelect.select_one fe = [s] /\ In s (FnSelect.fe_variants fe) /\
+            (forall c, FnSelect.fe_primary fe = Some c -> In c (FnSelect.fe_variants fe) -> s = c).
+Proof. exact FnSelectP.select_one_uncalled. Qed.
+Print Assumptions C06_fn_uncalled_once.
+
+(* C++ level: no two emitted definitions share name AND parameter type list ("redefinition of ..."),
+   provided every selected signature consists of labels of _cpp_type's table (int, float, bool, String,
+   void, lists of those) - on these _cpp_type is injective; any other label would be emitted as int
+   (Example below; the transpiler's inference produces no other label, so this is a guard of the model,
+   not a finding) *)
+Theorem C06_fn_no_redefinition_partial : forall fs : list (Z * FnSelect.fentry),
+  NoDup (map fst fs) ->
+  (forall n s, In (n, s) (FnSelect.select fs) -> forallb FnSelect.known s = true) ->
+  FnSelect.no_redefinition (FnSelect.cpp_defs fs) = true /\ NoDup (FnSelect.cpp_defs fs).
+Proof. exact FnSelectP.no_redefinition_partial. Qed.
+Print Assumptions C06_fn_no_redefinition_partial.
+
+Theorem C06_fn_no_redefinition_meaning : forall l : list (Z * list FnSelect.cty),
+  FnSelect.no_redefinition l = true <-> NoDup l.
+Proof. exact FnSelectP.no_redefinition_spec. Qed.
+Print Assumptions C06_fn_no_redefinition_meaning.
+
+Example C06_fn_cpp_type_not_injective :
+  FnSelect.cpp_type (FnSelect.LOther 0) = FnSelect.cpp_type FnSelect.LInt /\ FnSelect.LOther 0 <> FnSelect.LInt.
+Proof. exact FnSelectP.cpp_type_not_injective. Qed.
+Print Assumptions C06_fn_cpp_type_not_injective.
+
+(* the "not in keep" test is what does it: without it  def half(x): x = x / 2.0 ...  called as half(3) and
+   half(2.5) (two call signatures, one variant) is selected - and then defined - twice *)
+Example C06_fn_dedup_needed :
+  FnSelect.keep_used_nodedup (FnSelect.fe_aliases FnSelect.half_entry) (FnSelect.fe_variants FnSelect.half_entry)
+     (FnSelect.fe_used FnSelect.half_entry) = [[FnSelect.LFloat]; [FnSelect.LFloat]] /\
+  FnSelect.select_one FnSelect.half_entry = [[FnSelect.LFloat]] /\
+  FnSelect.no_redefinition (map (fun s => (1, FnSelect.cpp_sig s))
+     (FnSelect.keep_used_nodedup (FnSelect.fe_aliases FnSelect.half_entry) (FnSelect.fe_variants FnSelect.half_entry)
+        (FnSelect.fe_used FnSelect.half_entry))) = false.
+Proof. exact FnSelectP.nodedup_breaks. Qed.
+Print Assumptions C06_fn_dedup_needed.
+
+Example C06_fn_select_nonvacuous :
+  FnSelect.select FnSelect.demo_fns =
+    [(1, [FnSelect.LFloat]); (2, [FnSelect.LInt]); (2, [FnSelect.LString]); (3, [FnSelect.LInt; FnSelect.LInt])] /\
+  FnSelect.no_redefinition (FnSelect.cpp_defs FnSelect.demo_fns) = true /\
+  NoDup (map fst FnSelect.demo_fns) /\
+  (forall n s, In (n, s) (FnSelect.select FnSelect.demo_fns) -> forallb FnSelect.known s = true).
+Proof. exact FnSelectP.demo_select. Qed.
+Print Assumptions C06_fn_select_nonvacuous.
